@@ -1,4 +1,5 @@
 CONSTANTS
+  CommitSeqBeforeWrite = FALSE
   FreezeBeforeMetaFlush = FALSE
 SPECIFICATION TraceSpec
 INVARIANTS AckNotAhead NoLoss NoReapply FlushedResolves NoIdReuse
